@@ -234,6 +234,20 @@ func checkC14(c *Ctx) {
 			}
 		}
 	}
+	// valid UTF-8 beyond ASCII inside otherwise well-formed strings, at every position (single case throughout)
+	for _, base := range []string{good, strings.ToLower(goodID), goodID} {
+		for _, ru := range []string{"é", "ß", "ı", "ſ", "İ", "Ａ", "\u00a0", "\u212a", "😀"} {
+			for pos := 0; pos <= len(base); pos += 1 + len(base)/24 {
+				for _, s := range []string{base[:pos] + ru + base[pos:], base[:pos] + ru + base[min(pos+1, len(base)):]} {
+					what := guarded(func() {
+						c.c09Native("non-ascii-rune", s, base != good, true)
+						c.pluginStringCase("non-ascii-rune", s)
+					})
+					c.Oracle("no-panic-no-hang", what == "", "parse-panic", map[string]string{"entry": "Parse* / plugin.Parse*", "string": s}, what)
+				}
+			}
+		}
+	}
 	for k := 0; k < c.vol(400, 6000); k++ {
 		seed := []string{good, goodID, "age1verif1qqqqqq", "AGE-PLUGIN-VERIF-1QQQQQQ", "&$/A\\41KK"}[k%5]
 		s := string(mutateBytes(c.rng, []byte(seed)))
@@ -347,7 +361,9 @@ func checkC14(c *Ctx) {
 			"-> msg\naGVsbG8\n-> done\n\n",
 		}
 		hand := []string{"-> error stanza 0 -1\nYm9vbQ\n", "-> error stanza -1 0\nYm9vbQ\n", "-> error stanza 0 99999999999999999999\nYm9vbQ\n", "-> error stanza 0\nYm9vbQ\n", "-> error stanza\nYm9vbQ\n",
-			"-> file-key -1\nQUJDREVGQUJDREVGQUJDRA\n-> done\n\n", "-> recipient-stanza -1 t\n\n-> done\n\n", "-> error recipient -1\nYm9vbQ\n", "-> error identity -1\nYm9vbQ\n"}
+			"-> file-key -1\nQUJDREVGQUJDREVGQUJDRA\n-> done\n\n", "-> recipient-stanza -1 t\n\n-> done\n\n", "-> error recipient -1\nYm9vbQ\n", "-> error identity -1\nYm9vbQ\n",
+			"-> confirm eWVz bm8 bm8\ncHJvbXB0\n-> done\n\n", "-> confirm eWVz bm8 bm8 bm8 bm8\ncHJvbXB0\n-> done\n\n", "-> confirm\ncHJvbXB0\n-> done\n\n",
+			"-> request-secret a b c\ncGlu\n-> done\n\n", "-> msg a b\naGVsbG8\n-> done\n\n", "-> labels\n\n-> labels a\n\n-> done\n\n"}
 		per := c.vol(25, 400)
 		run := func(identity bool, out []byte, kind string) {
 			what := guarded(func() {
